@@ -202,6 +202,14 @@ def c13_mutants(rng, nodes, lay):
     out.append(("duplicate creg", ins(pos(), ("creg", cn, 1)), ("DupCReg", cn, cs_)))
     out.append(("qreg named like a creg", ins(pos(), ("qreg", cn, 1)), ("DupCReg", cn, cs_)))
     out.append(("unknown gate", ins(pos(), ("apply", "foo", [("q", qn, 0)], [])), ("UnknownGate", "foo")))
+    # a gate applied before the statement that defines it (also through another gate's body) is unknown at that point
+    glater = ("gate", "glater", ["a"], [], [("apply", "h", [("r", "a")], [])])
+    p0 = pos()
+    out.append(("gate used before its definition", nodes[:p0] + [("apply", "glater", [("q", qn, 0)], []), glater] + nodes[p0:],
+                ("UnknownGate", "glater")))
+    gvia = ("gate", "gvia", ["a"], [], [("apply", "glater", [("r", "a")], [])])
+    out.append(("gate used (inside another gate's body) before its definition",
+                nodes + [gvia, ("apply", "gvia", [("q", qn, 0)], []), glater], ("UnknownGate", "glater")))
     out.append(("unknown c-gate", ins(pos(), ("apply", "cfoo", [("q", qn, 0), ("q", lay.qubits()[-1][1], lay.qubits()[-1][2])], [])),
                 ("UnknownGate", "cfoo")) if lay.nq() >= 2 else None)
     out.append(("wrong parameter count", ins(pos(), ("apply", "rx", [("q", qn, 0)], [])), ("WrongArgNumber", "rx", 0)))
